@@ -422,3 +422,61 @@ theorem pickIter_spec' {t : Tbl} (hw : WFU t) (hv : VarsOK t) (u : Int) (hm : t.
       exact hac q hq
 
 end DD
+
+namespace DD
+
+/-- every model is covered by exactly one yielded assignment -/
+theorem pickIter_unique {L : List (List (String × Bool))} (hpw : L.Pairwise Incompat)
+    {σ : AsgN} {m m' : List (String × Bool)} (hm : m ∈ L) (hm' : m' ∈ L)
+    (h : AgreesN σ m) (h' : AgreesN σ m') : m' = m := by
+  apply Classical.byContradiction
+  intro hne
+  exact AgreesN.not_incompat h' h (pairwise_symm_mem (fun _ _ => Incompat.symm) hpw hm' hm hne)
+
+theorem minterms_ne_nil (care : List String) (cube : List (String × Bool)) : minterms care cube ≠ [] := by
+  unfold minterms
+  intro h
+  have := congrArg List.length h
+  simp only [List.length_map, allAssignments_length, List.length_nil] at this
+  have : 0 < 2 ^ ((dedup care).filter fun b => !(cube.any (·.1 = b))).length := Nat.pow_pos (by omega)
+  omega
+
+/-- `pick_iter` yields nothing exactly for the reference `-1` (so `pick` returns `None`
+exactly for `false`) -/
+theorem pickIter_nil_iff {t : Tbl} (hw : WFU t) (hv : VarsOK t) (u : Int) (hm : t.Mem u)
+    (care : Option (List String)) :
+    ∃ L, pickIter t u care = .ok L ∧ (L = [] ↔ u = -1) := by
+  have hW := hw.toWF
+  obtain ⟨ls, _, _, hls, hs⟩ := support_spec' hw hv u hm
+  obtain ⟨cubes, hc, hi, hcov, _⟩ := satIterF_spec hw (t.nvars + 2) u [] true hm (by omega)
+    (by simp) (by simp)
+  have hk : ∀ c ∈ cubes, ∀ p ∈ c, p.1 < t.nvars := by
+    intro c hc' p hp
+    rcases (hi c hc').2.2.1 p hp with h | h
+    · simp at h
+    · exact dependsOn_lt_nvars hw hm h
+  refine ⟨_, pickIter_eq hw hv u hm care _ hs cubes hc hk, ?_⟩
+  constructor
+  · intro hnil
+    have hcn : cubes = [] := by
+      cases cubes with
+      | nil => rfl
+      | cons c rest =>
+        exfalso
+        simp only [List.map_cons, List.flatMap_cons, List.append_eq_nil_iff] at hnil
+        exact minterms_ne_nil _ _ hnil.1
+    subst hcn
+    apply (canonical t hw u (-1) hm (Or.inl rfl)).mp
+    intro a
+    rw [den_neg_one]
+    cases hd : den t u a
+    · rfl
+    · obtain ⟨c, hc', _⟩ := hcov a (by intro p hp; simp at hp) hd
+      simp at hc'
+  · intro hu
+    subst hu
+    have : satIterF (t.nvars + 2) t (-1) [] true = .ok [] := by simp [satIterF]
+    rw [this] at hc; cases hc
+    rfl
+
+end DD
